@@ -151,6 +151,12 @@ func RandMSM(r *ref.SplitMix64, o MSMOpts) *ref.MSM {
 				s.Lock, s.Half, s.CNR, s.RateDelta = 0, false, 0, 0
 			}
 		}
+		if r.Chance(1, 12) {
+			// a cell in which nothing was measured: every signed field holds its
+			// 'invalid' marker, lock time and C/N0 are zero (the half-cycle flag either way)
+			s.RangeDelta, s.PhaseDelta, s.RateDelta = -(1 << (rdBits - 1)), -(1 << (pdBits - 1)), -(1 << 14)
+			s.Lock, s.CNR, s.Half = 0, 0, r.Chance(1, 2)
+		}
 		if !msm7 {
 			s.RateDelta = 0
 		}
